@@ -6,6 +6,7 @@ import (
 	"go/parser"
 	"go/token"
 	"math/rand"
+	"reflect"
 	"strconv"
 	"strings"
 
@@ -84,6 +85,50 @@ func c17(c *wk.Ctx) {
 	for _, t := range texts {
 		if c.Mine(idx) {
 			c17one(c, idx, cat, int32(400+idx%5), t)
+		}
+		idx++
+	}
+	// the same texts again, in other orders and from several goroutines at once: the answer for a text does not depend
+	// on what was asked before or at the same time (sequential answers, judged above, are the expectation)
+	for k := 0; k < c.Pick(4, 40); k++ {
+		if c.Mine(idx) {
+			c.Begin(idx, fmt.Sprintf("concurrent %d", k))
+			type ans struct {
+				Code      int
+				Msg, Desc string
+				Info      interface{}
+				Panic     string
+			}
+			ask := func(code int32, t string) (a ans) {
+				defer func() {
+					if p := recover(); p != nil {
+						a.Panic = fmt.Sprint(p)
+					}
+				}()
+				if r, ok := mtproto.RpcErrorToNative(&objects.RpcError{ErrorCode: code, ErrorMessage: t}).(*mtproto.ErrResponseCode); ok && r != nil {
+					return ans{r.Code, r.Message, r.Description, r.AdditionalInfo, ""}
+				}
+				return ans{Msg: "<not structured>"}
+			}
+			want := make([]ans, len(texts))
+			for i, t := range texts {
+				want[i] = ask(int32(400+i%5), t)
+			}
+			res := concurrently(8, int64(idx), func(g int, r *rand.Rand) string {
+				for _, i := range r.Perm(len(texts)) {
+					if got := ask(int32(400+i%5), texts[i]); !reflect.DeepEqual(got, want[i]) {
+						return fmt.Sprintf("answer-depends-on-history: %q gave %+v when asked alone in order and %+v when asked among other texts by 8 goroutines", texts[i], want[i], got)
+					}
+				}
+				return ""
+			})
+			c.Count("evaluations", int64(8*len(texts)))
+			for _, m := range res {
+				if m != "" {
+					c.Viol("C17", idx, "concurrent/"+strings.SplitN(m, ":", 2)[0], m, nil)
+				}
+			}
+			c.Distinct("concurrent", k)
 		}
 		idx++
 	}
